@@ -28,6 +28,9 @@ pub enum Wait {
     Mutex(u32),
     Send(u32),
     Recv(u32),
+    /// send_timeout / recv_timeout: like Send / Recv, but given up when nothing else can run
+    SendT(u32),
+    RecvT(u32),
     Join(u32),
     Pool { pool: u32, timed: bool },
     Gate(u32),
@@ -159,11 +162,11 @@ impl Runtime {
         match tk.wait {
             Wait::None => true,
             Wait::Mutex(m) => self.mutex_holder[m as usize].is_none(),
-            Wait::Send(c) => {
+            Wait::Send(c) | Wait::SendT(c) => {
                 let ch = &self.chans[c as usize];
                 ch.len < ch.cap || ch.receivers == 0
             }
-            Wait::Recv(c) => {
+            Wait::Recv(c) | Wait::RecvT(c) => {
                 let ch = &self.chans[c as usize];
                 ch.len > 0 || ch.senders == 0
             }
@@ -193,15 +196,16 @@ impl Runtime {
                 // 1. a timed wait expires only when nothing else can run
                 if let Some(t) = (0..n).find(|&t| {
                     !self.tasks[t].finished
-                        && matches!(self.tasks[t].wait, Wait::Pool { timed: true, .. })
+                        && matches!(self.tasks[t].wait, Wait::Pool { timed: true, .. } | Wait::SendT(_) | Wait::RecvT(_))
                 }) {
-                    let pool = match self.tasks[t].wait {
-                        Wait::Pool { pool, .. } => pool,
+                    let ev = match self.tasks[t].wait {
+                        Wait::Pool { pool, .. } => Ev::TimeoutFired { pool },
+                        Wait::SendT(ch) | Wait::RecvT(ch) => Ev::ChanTimeout { ch },
                         _ => unreachable!(),
                     };
                     self.tasks[t].released = true;
                     self.timeouts += 1;
-                    self.log.push(Rec { task: t as u32, ev: Ev::TimeoutFired { pool } });
+                    self.log.push(Rec { task: t as u32, ev });
                     continue;
                 }
                 // 2. then quiesce waiters (lowest id first)
@@ -254,7 +258,7 @@ impl Runtime {
                     format!("held_by={:?}", self.mutex_holder[m as usize]),
                     "",
                 ),
-                Wait::Send(c) | Wait::Recv(c) => {
+                Wait::Send(c) | Wait::Recv(c) | Wait::SendT(c) | Wait::RecvT(c) => {
                     let ch = &self.chans[c as usize];
                     (
                         format!(
